@@ -397,8 +397,47 @@ func genSystematic(r *vcoq.Rand) []Scenario {
 	return out
 }
 
+// decorate adds the in-place modifications of metadata maps (which must be invisible) and the
+// re-submission of an already used map (whose contents at that moment are what the step says)
+func decorate(r *vcoq.Rand, sc *Scenario) {
+	sc.CMut = r.Chance(50)
+	var last [][2]int
+	has := false
+	for i := range sc.Steps {
+		st := &sc.Steps[i]
+		if st.K != "SetH" && st.K != "SendH" && st.K != "SetT" {
+			continue
+		}
+		if has && r.Chance(30) {
+			st.Reuse = true
+			st.MD = last
+		}
+		if r.Chance(50) {
+			st.Mut = r.Range(1, 4)
+		}
+		m := mkMD(st.MD)
+		mutateMD(m, st.Mut)
+		last, has = userMD(m), true
+	}
+}
+
 func tagsOf(sc Scenario) []string {
 	tags := []string{"shape:" + sc.Shape}
+	if sc.CMut {
+		tags = append(tags, "client-mutates-metadata")
+	}
+	for _, st := range sc.Steps {
+		if st.Mut != 0 {
+			tags = append(tags, "handler-mutates-metadata")
+			break
+		}
+	}
+	for _, st := range sc.Steps {
+		if st.Reuse {
+			tags = append(tags, "handler-reuses-map")
+			break
+		}
+	}
 	if sc.PreCancel {
 		return append(tags, "precancel")
 	}
@@ -454,6 +493,11 @@ func genC13(o *vcoq.Out, r *vcoq.Rand, tier string) error {
 		scs = append(scs, genRandom(r, shapes[i%len(shapes)]))
 	}
 
+	for i := range scs {
+		if i%4 != 0 { // a quarter of the scenarios stays plain
+			decorate(r, &scs[i])
+		}
+	}
 	leaks, nStuck := 0, 0
 	for _, sc := range scs {
 		if nStuck >= 5 {
